@@ -109,6 +109,7 @@ func init() {
 			c.Scenarios = append(c.Scenarios, f.scenario(c02Oracle))
 		}
 		// every program of the limit family under every limit triple: crash/wedge oracle only
+		c.Scenarios = append(c.Scenarios, Scenario{Name: "repository-programs", Count: func(string) int { return len(corpus()) }, Run: c02Repo})
 		c.Scenarios = append(c.Scenarios, Scenario{Name: "resource-limit-lattice", Count: func(string) int { return c09Count() }, Run: func(tier string, idx int, r *Result) {
 			r.failFilter = func(class string) bool {
 				return strings.HasPrefix(class, "HOST-PANIC") || strings.HasPrefix(class, "HANG") || strings.HasPrefix(class, "DEADLOCK") || strings.HasPrefix(class, "HARNESS")
@@ -204,6 +205,7 @@ func init() {
 		for _, rt := range c12ProgRoutes {
 			c.Scenarios = append(c.Scenarios, c04CastScenario(rt))
 		}
+		c.Scenarios = append(c.Scenarios, Scenario{Name: "repository-programs", Count: func(string) int { return len(corpus()) }, Run: c04Repo})
 		c.Scenarios = append(c.Scenarios, Scenario{Name: "accepted-expressions-in-contexts", Count: func(string) int { return c05CtxCount() }, Run: func(_ string, idx int, r *Result) {
 			text, tags := c05CtxProgram(idx)
 			a := Analyze(map[string]string{"main": text}, true)
@@ -257,6 +259,89 @@ func init() {
 		}))
 		return c
 	})
+}
+
+// repoProgram returns the idx-th program shipped with the repository (examples/, tests/) as
+// module main, together with every other shipped file as an importable module.
+func repoProgram(idx int) (mods map[string]string, name string, skip string) {
+	c05InitCorpus()
+	f := corpus()[idx]
+	self := strings.TrimSuffix(f.Name[strings.LastIndex(f.Name, "/")+1:], ".hms")
+	mods = map[string]string{}
+	for k, v := range c05CorpusMods {
+		if k != self && k != "main" {
+			mods[k] = v
+		}
+	}
+	mods["main"] = f.Text
+	switch {
+	case strings.Contains(f.Text, "time.now"):
+		skip = "reads-the-clock"
+	case strings.Contains(f.Text, "time.sleep") && strings.Contains(f.Text, "loop"):
+		skip = "sleeps-in-a-loop"
+	}
+	return mods, f.Name, skip
+}
+
+// c04Repo: every shipped program behaves the same on both backends.
+func c04Repo(_ string, idx int, r *Result) {
+	mods, name, skip := repoProgram(idx)
+	if skip != "" {
+		r.Note("repository-program-skipped:"+skip, 1)
+		return
+	}
+	a := Analyze(mods, true)
+	if a.Obs.Class == "HOST-PANIC" || !a.Obs.Accepted() {
+		r.Note("not-accepted", 1)
+		return
+	}
+	text := mods["main"]
+	tags := []string{"file:" + name}
+	ov := RunVM(a, defaultOpts())
+	ot := RunTree(a, defaultOpts())
+	r.Obs(ov)
+	r.Trans(2)
+	if crashClass(ov) != "" || crashClass(ot) != "" {
+		r.Note("crash-on-a-backend(C02)", 1)
+		return
+	}
+	r.Sample(text)
+	r.Outcome(ov.Class)
+	r.Distinct(name + "|" + ov.Key())
+	if ov.Class != ot.Class || ov.Kind != ot.Kind {
+		r.Fail(fmt.Sprintf("BACKENDS-DIFFER:outcome vm=%s%s tree=%s%s", ov.Class, kindSuffix(ov.Kind), ot.Class, kindSuffix(ot.Kind)), tags, text, fmt.Sprintf("vm: %s\ntree: %s", ov.String(), ot.String()))
+	} else if ov.Class == "uncaught" && ov.Msg != ot.Msg {
+		r.Fail("BACKENDS-DIFFER:uncaught-message", tags, text, fmt.Sprintf("vm: %s\ntree: %s", ov.String(), ot.String()))
+	} else if ov.Out != ot.Out {
+		r.Fail("BACKENDS-DIFFER:output", tags, text, fmt.Sprintf("vm: %s\ntree: %s", ov.String(), ot.String()))
+	}
+}
+
+// c02Repo: no shipped program crashes, hangs or deadlocks a backend.
+func c02Repo(_ string, idx int, r *Result) {
+	mods, name, skip := repoProgram(idx)
+	if skip != "" {
+		r.Note("repository-program-skipped:"+skip, 1)
+		return
+	}
+	a := Analyze(mods, true)
+	if a.Obs.Class == "HOST-PANIC" {
+		r.Fail("HOST-PANIC:"+panicFunc(a.Obs.PanicSite)+":"+normMsg(a.Obs.Msg), []string{"stage:analyze", "file:" + name}, mods["main"], a.Obs.String())
+		return
+	}
+	if !a.Obs.Accepted() {
+		r.Note("not-accepted", 1)
+		return
+	}
+	r.Sample(mods["main"])
+	for _, b := range backendNames {
+		o := runOn(b, a, r)
+		r.Distinct(name + "|" + b + "|" + o.Class)
+		r.Outcome(b + ":" + o.Class)
+		if cc := crashClass(o); cc != "" && !strings.HasPrefix(cc, "HANG") {
+			r.Fail(cc, []string{"backend:" + b, "file:" + name}, mods["main"], o.String())
+		}
+	}
 }
 
 func hasFeat(feats []string, f string) bool { return hasTag(feats, f) }
